@@ -22,6 +22,9 @@ class AnonymousClass(Mapping):
     def __getitem__(self, item):
         return getattr(self, item)
 
+    def __setitem__(self, item, value):
+        setattr(self, item, value)
+
 
 def _get_type_and_attrs(schema_def):
     if schema_def is None:
